@@ -368,7 +368,7 @@ func runC20(c *core.Ctx) error {
 	}
 	jobs = append(jobs, mcJob{"derived+mutants", mc2Opts(mcParams{Mode: "derive", MaxW: c.Pick(3, 4), MaxCombs: 1, MutW: c.Pick(2, 3)}, layouts2For(c))})
 	o := mc2Opts(mcParams{Mode: "tok", MaxToks: 40, TokSel: "full"}, []int{1})
-	o.Simulate = fmt.Sprintf("num=%d", c.Pick(10, 60))
+	o.Simulate = fmt.Sprintf("num=%d", c.Pick(6, 60))
 	o.Depth = 41
 	o.Seed = c.Seed
 	o.Workers = c.Pick(1, 4)
@@ -376,7 +376,7 @@ func runC20(c *core.Ctx) error {
 	if err := runJobs(c, d, jobs, h); err != nil {
 		return err
 	}
-	c.Add("traces_validated_against_impl", c.Pick(10, 240))
+	c.Add("traces_validated_against_impl", c.Pick(6, 240))
 	if err := selfTestTL2(c, d); err != nil {
 		return err
 	}
@@ -456,7 +456,7 @@ func runC22(c *core.Ctx) error {
 	w := workers(c)/2 + 1
 	errs := make(chan error, 3)
 	go func() {
-		o := mc2Opts(mcParams{Mode: "derive", MaxW: c.Pick(4, 5), MaxCombs: 1}, layouts2For(c))
+		o := mc2Opts(mcParams{Mode: "derive", MaxW: c.Pick(3, 5), MaxCombs: 1}, layouts2For(c))
 		o.Workers = w
 		_, err := runMC(c, d, "derived", o, h)
 		errs <- err
@@ -468,7 +468,7 @@ func runC22(c *core.Ctx) error {
 			return
 		}
 		defer d2.Close()
-		o := mc2Opts(mcParams{Mode: "derive", MaxW: c.Pick(3, 4), MaxCombs: 2}, layouts2For(c))
+		o := mc2Opts(mcParams{Mode: "derive", MaxW: c.Pick(3, 4), MaxCombs: 2}, layouts2For(c)[1:])
 		o.Workers = w
 		_, err = runMC(c, d2, "derived_2_declarations", o, h)
 		errs <- err
@@ -553,7 +553,7 @@ func selfTestC22(c *core.Ctx, d *drv) error {
 func traceTL2(c *core.Ctx, d *drv, st *stats) error {
 	tr := c.Scratch + "/tl2-trace.ndjson"
 	var reply map[string]any
-	n := c.Pick(2000, 30000)
+	n := c.Pick(1500, 30000)
 	if err := d.p.Call(map[string]any{"op": "randtrace2", "count": n, "seed": c.Seed, "out": tr}, &reply); err != nil {
 		return err
 	}
